@@ -24,6 +24,7 @@ from netqasm.lang.instr import NVFlavour, VanillaFlavour
 from netqasm.lang.parsing import deserialize
 from netqasm.lang.subroutine import Subroutine
 from netqasm.sdk.transpile import NVSubroutineTranspiler
+from netqasm.runtime import settings
 
 from sim.core import Choices, Discard, Sched, Trace, Violation
 from sim.rigs.controller import ControllerNode, subroutine_bytes, to_instr
@@ -52,7 +53,7 @@ ASSUMPTIONS = [
     "Q registers (scratch electron register) and C15 (end no-op) are excluded from the classical comparison",
 ]
 PROBES = ["sdk-emitted", "sdk-nv-config", "branch-crosses-expansion", "carbon-carbon-gate", "end-label-target", "loop", "if", "measure-feeds-branch",
-          "debug-on", "three-qubits", "s-or-t-gate", "q-register-by-load", "carbon-carbon-burst", "q-register-live-across-carbon-gate"]
+          "debug-on", "three-qubits", "s-or-t-gate", "q-register-by-load", "carbon-carbon-burst", "q-register-live-across-carbon-gate", "hardware-setting-on"]
 
 G1 = ["x", "y", "z", "h", "k", "s", "t"]
 Q = [("Q", 0), ("Q", 1)]
@@ -355,7 +356,9 @@ def run(ch: Choices, opts: Dict[str, Any]) -> Dict[str, Any]:
     n = 2 if calm else 2 + ch.draw(2, "nq")
     gen = ProgGen(ch, n, avoid | ({"q-reg-by-load"} if calm else set()))
     prog = gen.program()
-    debug = (not calm) and ("debug-via-bytes" not in avoid) and ch.flag(1, 6, "debug")
+    # the recorded debug finding needs a branch or jump; branch-free programs are transpiled with debug=True in every run
+    branchy = any(t[0] in ("bez", "bnz", "beq", "bne", "blt", "bge", "jmp") for t in prog)
+    debug = (not calm) and ch.flag(1, 6, "debug") and not ("debug-via-bytes" in avoid and branchy)
     us = [ch.u01("collapse") for _ in range(48)]
     dim = 2 ** n
     kind = ch.draw(3, "inkind")
@@ -418,9 +421,18 @@ def run(ch: Choices, opts: Dict[str, Any]) -> Dict[str, Any]:
         raise RuntimeError("generator produced a non-terminating vanilla program")
     if verr is not None:
         raise Discard("generated vanilla program faults on the vanilla executor: " + type(verr).__name__)
+    # the package-wide "running on hardware" setting changes how rotation angles are written (always over 2^4)
+    on_hw = (not calm) and ch.flag(1, 6, "hardware-setting")
+    sample["hardware_setting"] = on_hw
+    if on_hw:
+        bump(probes, "hardware-setting-on")
     try:
         sub = deserialize(raw_v[1:], flavour=vf)
-        tsub = NVSubroutineTranspiler(sub, debug=debug).transpile()
+        settings.set_is_using_hardware(on_hw)
+        try:
+            tsub = NVSubroutineTranspiler(sub, debug=debug).transpile()
+        finally:
+            settings.set_is_using_hardware(False)
     except Violation:
         raise
     except Exception as e:  # noqa: BLE001
@@ -435,7 +447,7 @@ def run(ch: Choices, opts: Dict[str, Any]) -> Dict[str, Any]:
         raise
     except Exception as e:  # noqa: BLE001
         nerr = e
-    tags = ("|debug" if debug else "") + ("|q-register-by-load" if "q-register-by-load" in gen.kinds else "")
+    tags = ("|debug" if (debug and branchy) else "") + ("|q-register-by-load" if "q-register-by-load" in gen.kinds else "")
     if isinstance(nerr, StepCap):
         raise Violation("twin", f"nv-side-does-not-terminate{tags}", {"transpiled": str(tsub)[:3000], **sample})
     if nerr is not None:
